@@ -60,6 +60,55 @@ CHECKS.update({
     ),
 })
 
+CHECKS.update({
+    "C07": dict(
+        category="model_checking",
+        technique="explicit-state model checking of the implementation: BFS over histories with restart/drain operations on the engine over DbBacked<MemKv>, from-scratch reference model, justification judge and restart-free twin (differential)",
+        text=("The C01 history search runs on an engine over the real caches and write-behind pipeline with an in-memory KvDatabase (real Postcard "
+              "encoding); RESTART (clean shutdown, new engine + interner + caches on the same store) and DRAIN are operations of the alphabet and "
+              "are inserted at every position up to depth 4 (quick) / 5 (thorough), for cache capacities 1/2/64 and three store grouping policies. "
+              "After a restart no input is set again: every value and dependency read must equal the from-scratch value, every executor "
+              "activation must be justified (up-to-date results are served without running anything), and the same history without restarts must "
+              "give the same values and the same activation log. Histories with a restart among their last 3 operations are never merged with "
+              "restart-free ones."),
+        design_ref="DESIGN.md 4/C07",
+        note="Sequential histories, deterministic pipeline scheduling; MemKv stands for the backend (its contract is C11); known findings F10a-d shared with C01/C03.",
+    ),
+    "C08": dict(
+        category="fault_enumeration",
+        technique="exhaustive crash-point enumeration: for every history of the bounded search, an engine is opened on every prefix of the physical commit log",
+        text=("For every history visited by the C07 search to depth 3 (quick) / 4 (thorough) and every configuration, the ordered physical commit "
+              "log of the store is cut at EVERY boundary (including the empty store and the store after the very first write); an engine opened on "
+              "each prefix must start, show the inputs of exactly one committed session (all of them), answer every query with the from-scratch "
+              "value for those inputs, and handle a further edit + query correctly."),
+        design_ref="DESIGN.md 4/C08",
+        note="Crash = prefix of physical commits (atomicity of one commit is the backend's, C11); kill -9 at arbitrary instants of a real backend is a sampling experiment outside this family and not claimed.",
+    ),
+    "C09": dict(
+        category="exploration",
+        technique="exhaustive enumeration of operation sequences with explicit pipeline steps on the real cache maps + deviation-bounded schedule exploration of reader/writer/pipeline threads",
+        text=("H: every operation sequence to depth 5 (quick) / 6 (thorough) over writes into a fresh batch or two open batches, submits in any "
+              "order, explicit pipeline steps (serializer / committer / notifier runs until it blocks), a burst of 40 foreign keys (maintenance + "
+              "evictions) and reads, for the single, dynamic (two value types under one key) and key-to-set maps (also a set beyond the 1024 "
+              "threshold), cache capacities 1/2/4 and three grouping policies, on the real DbBacked maps and write-behind threads; every read, a "
+              "final read, and a read through fresh maps after shutdown are compared with plain reference maps. S: reader thread vs writer thread "
+              "vs pipeline threads with <= 2 (3) deviations, reads must be at least as new as the last completed write."),
+        design_ref="DESIGN.md 4/C09",
+        note=("Writes to one key are issued in batch-creation order (what the engine guarantees via the per-query exclusive lock). H moves the pipeline "
+              "only in 'thread runs until it blocks' steps; finer interleavings only in S. Known findings F4/F11 (stale cache fills) are reported as KNOWN-FINDING."),
+    ),
+    "C10": dict(
+        category="exploration",
+        technique="stateless model checking: deviation-bounded exhaustive DFS over the schedules of submitter, serializer, committer and notifier threads of the real WriteBehind",
+        text=("All submission orders of 3 (thorough: also 4) batches created in one order and filled with overlapping keys through the cache maps, "
+              "2-3 submitter threads, 1-3 serializer workers, three grouping policies, every schedule with <= 2 (3) deviations; then the write "
+              "manager is dropped. On the store's commit log: every submitted operation exactly once, batches in creation order across physical "
+              "commits, no logical batch split, final content == sequential application, drop returns after the last commit, no deadlock."),
+        design_ref="DESIGN.md 4/C10",
+        note="Scheduling points: channel operations, lock acquisitions, atomics, store commits; <= d deviations.",
+    ),
+})
+
 NOT_YET = {
 }
 
